@@ -42,7 +42,7 @@ pub struct MT942 {
     pub field_13d: Field13D,
 
     /// Statement lines
-    #[serde(rename = "#")]
+    #[serde(rename = "#", default, skip_serializing_if = "Vec::is_empty")]
     pub statement_lines: Vec<MT942StatementLine>,
 
     /// Number and Sum of Debits (Field 90D)
